@@ -2,7 +2,9 @@ package props
 
 import (
 	"bytes"
+
 	"fmt"
+	bip39 "github.com/islishude/bip39"
 	"testing"
 
 	"pgregory.net/rapid"
@@ -20,7 +22,10 @@ type losslessCase struct {
 	Lang    string `json:"lang"`
 	Entropy hexb   `json:"entropy"`
 	Flips   bool   `json:"flips"` // also try all ENT single-bit flips
-	Shape   string `json:"shape,omitempty"`
+	// AfterFailedNew: a NewMnemonic call whose source ends after a few bytes is made first (through
+	// the swap hook; sequential cases only)
+	AfterFailedNew bool   `json:"after_failed_new,omitempty"`
+	Shape          string `json:"shape,omitempty"`
 }
 
 func c05Decode(l ref.Lang, ent []byte) (string, error) {
@@ -44,6 +49,12 @@ func c05Decode(l ref.Lang, ent []byte) (string, error) {
 
 var c05Check = register("C05", "c05.lossless", func(c *losslessCase) error {
 	l := mustLang(c.Lang)
+	if c.AfterFailedNew {
+		prev := bip39.VerifSwapRandSource(bytes.NewReader([]byte{0xde, 0xad, 0xbe, 0xef, 0x42}))
+		implNew(24, implLang[l])
+		implNew(12, implLang[l])
+		bip39.VerifSwapRandSource(prev)
+	}
 	m, err := c05Decode(l, c.Entropy)
 	if err != nil {
 		return err
@@ -116,7 +127,7 @@ func TestC05_Flips(t *testing.T) {
 	rapidCheck(t, func(rt *rapid.T) {
 		l := gen.Lang().Draw(rt, "lang")
 		e := gen.Entropy().Draw(rt, "ent")
-		c := &losslessCase{Lang: l.Name(), Entropy: e.Bytes, Flips: true, Shape: e.Shape}
+		c := &losslessCase{Lang: l.Name(), Entropy: e.Bytes, Flips: true, Shape: e.Shape, AfterFailedNew: rapid.Bool().Draw(rt, "after-failed-new")}
 		c05Record(c)
 		if k++; k%97 == 1 {
 			cov.Sample("c05.lossless", c)
